@@ -332,7 +332,7 @@ fn split_debug_items(s: &str) -> Vec<String> {
     items
 }
 
-fn token_wire(dbg: &str) -> String {
+pub fn token_wire(dbg: &str) -> String {
     let simple = [
         ("Question", "?"), ("Colon", ":"), ("Add", "+"), ("Minus", "-"), ("Multiply", "*"), ("Divide", "/"), ("Mod", "%"),
         ("Not", "!"), ("Dot", "."), ("Comma", ","), ("LBracket", "["), ("RBracket", "]"), ("LBrace", "{"), ("RBrace", "}"),
